@@ -337,3 +337,18 @@ def scribble(v):
     elif isinstance(v, (list, tuple)):
         for x in v:
             scribble(x)
+
+
+# ---------------------------------------------------------------------------------------------- user-defined (custom) edges
+def custom_edge(it, vertex_ids, information=None, estimate=None, vertices=None, cls="BaseEdge", **extra):
+    """An instance of a user-defined edge class: an object of (a subclass of) BaseEdge initialised by BaseEdge.__init__ itself,
+    so that whatever the constructor stores (plain attributes, properties with setters, ...) is what the methods later find."""
+    from .interp import Obj as _Obj, sa as _sa
+    e = _Obj(cls)
+    init = it.pkg.lookup(cls if cls in it.pkg.classes else "BaseEdge", "__init__")
+    if init is None or init[0] != "method":
+        raise AnalysisError("anchor vanished: BaseEdge.__init__")
+    it.call_function(init[1][0], [e], dict(vertex_ids=vertex_ids, information=information, estimate=estimate, vertices=vertices))
+    for k, v in extra.items():
+        _sa(e, k, v)
+    return e
